@@ -641,3 +641,48 @@ def bad_values(ctx, tier, seed):
                                       "inputs": {"name": name, "mode": mode, "kwargs": repr(kw)[:200]}})
     return _res("ill-typed / out-of-range keyword values are refused or encoded at the right length (X/C length excepted: F-15c)",
                 f"every fixed-size definition x {per} attributes x 6 zoo values", cases, fails)
+
+
+def config_roundtrip(ctx, tier, seed):
+    """config_set with random keys/values of every database type -> parse the CFG-VALSET -> one attribute per key, equal
+    to its value; config_poll / config_del payloads carry the key IDs in order"""
+    from pyubx2 import UBXMessage, UBXReader, UBX_CONFIG_DATABASE
+    rnd = random.Random(seed + 1414)
+    names = list(UBX_CONFIG_DATABASE)
+    fails = []
+    cases = 0
+    n = 300 if tier == "quick" else 6000
+    for _ in range(n):
+        k = rnd.randrange(0, 9)
+        items = []
+        for nm in rnd.sample(names, k):
+            kid, typ = UBX_CONFIG_DATABASE[nm]
+            sz = int(typ[1:4])
+            if typ[0] in "ULE":
+                v = rnd.randrange(1 << (8 * sz))
+            elif typ[0] == "I":
+                v = rnd.randrange(-(1 << (8 * sz - 1)), 1 << (8 * sz - 1))
+            elif typ[0] == "X":
+                v = bytes(rnd.randrange(256) for _ in range(sz))
+            else:
+                v = float(rnd.randrange(-1000, 1000)) / 8
+            items.append((nm if rnd.random() < 0.5 else kid, v, nm))
+        cases += 1
+        try:
+            m = UBXMessage.config_set(rnd.randrange(8), rnd.randrange(4), [(a, b) for a, b, _ in items])
+            p = UBXReader.parse(m.serialize(), msgmode=1)
+            for a, v, nm in items:
+                got = getattr(p, nm, None)
+                first = [x for x, (i, _) in UBX_CONFIG_DATABASE.items() if i == UBX_CONFIG_DATABASE[nm][0]][0]
+                got = getattr(p, first, None)
+                if got != v:
+                    fails.append({"case": f"cfg:{nm}", "detail": f"set {v!r}, parsed {got!r}", "inputs": {"key": nm, "value": repr(v)}})
+                    break
+            ids = [UBX_CONFIG_DATABASE[nm][0] for _, _, nm in items]
+            q = UBXMessage.config_poll(0, 0, [a for a, _, _ in items])
+            want = b"\x00\x00\x00\x00" + b"".join(i.to_bytes(4, "little") for i in ids)
+            if q.payload != want:
+                fails.append({"case": "cfg-poll", "detail": f"{q.payload.hex()} != {want.hex()}", "inputs": {"ids": ids}})
+        except Exception as e:  # noqa
+            fails.append({"case": f"cfg-exc:{type(e).__name__}", "detail": str(e)[:200], "inputs": {"items": repr(items)[:300]}})
+    return _res("config_set -> parse gives one attribute per key with its value; config_poll payload", f"{n} random item lists (0..8 items)", cases, fails)
